@@ -77,12 +77,16 @@ def main():
             out['ground'].append(dict(id=gid, desc=desc, ok=bool(ok), cases=cases, detail=str(detail)[:500],
                                       witness=None if ok else str(detail)[:300]))
         for bid, desc, bound, fn in getattr(m, 'BOUNDED', []):
+            wobj = None
             try:
-                ok, cases, detail = fn(a.budget, rng)
+                r = fn(a.budget, rng)
+                ok, cases, detail = r[:3]
+                if len(r) > 3:
+                    wobj = r[3]
             except Exception as e:
                 ok, cases, detail = False, 0, 'raised %s: %s' % (type(e).__name__, traceback.format_exc()[-400:])
             out['bounded'].append(dict(id=bid, desc=desc, bound=bound, ok=bool(ok), cases=cases, detail=str(detail)[:500],
-                                       witness=None if ok else str(detail)[:300]))
+                                       witness=None if ok else (wobj if wobj is not None else str(detail)[:300])))
         evals = {}
         per = max(0.5, a.budget / max(1, len(contracts)))
         for name, c in contracts.items():
